@@ -37,6 +37,25 @@ use std::process::Command;
 use std::sync::{Mutex, OnceLock};
 
 use super::c24::httpc::*;
+
+/// C25 compares results across front ends; availability is C24's subject. A request that got
+/// no status line at all (the machine was too busy to answer within the deadline) is repeated
+/// - every operation sent here is idempotent - before its absence counts as an outcome.
+fn simple(port: u16, method: &str, path: &str, content_type: Option<&str>, body: &[u8]) -> Resp {
+  let mut r = super::c24::httpc::simple(port, method, path, content_type, body);
+  for _ in 0..2 {
+    if r.status.is_some() {
+      break;
+    }
+    std::thread::sleep(std::time::Duration::from_millis(300));
+    r = super::c24::httpc::simple(port, method, path, content_type, body);
+  }
+  r
+}
+
+fn post_json(port: u16, path: &str, body: &serde_json::Value) -> Resp {
+  simple(port, "POST", path, Some("application/json"), body.to_string().as_bytes())
+}
 use super::c24::{lib_opts, schema_pool};
 
 pub struct C25;
